@@ -46,7 +46,19 @@ ADAPTORS = ("std::iter::Enumerate", "std::iter::Rev", "std::iter::Peekable", "st
 FINITE_BASES = ("std::str::Split<", "std::str::RSplit<", "std::str::Chars<", "std::str::CharIndices<", "std::str::Bytes<", "std::slice::Iter<", "std::slice::IterMut<", "std::vec::IntoIter<", "std::collections::hash_map::Iter<", "std::collections::hash_map::IntoIter<", "std::collections::hash_map::Keys<", "std::collections::hash_map::Values<", "std::str::SplitN<", "std::str::RSplitN<", "std::str::Lines<", "std::option::IntoIter<", "std::ops::Range<")
 
 
-def finite_iterator(npath, term):
+def local_finite_types(facts):
+    """local iterator types whose `next` forwards to a finite std iterator (e.g. qualifiers::Iter -> slice::Iter)"""
+    out = []
+    for k, f in facts.fns.items():
+        if f.get("impl_trait_def") == "std::iter::Iterator" and f.get("name") == "next" and k in facts.bodies:
+            fb = facts.body(k)
+            inner = [callee_name(t["callee"]) for _, t in fb.calls() if t["callee"].get("item") == "next"]
+            if inner and all(i in FINITE_ITERATORS for i in inner) and not fb.back_edges():
+                out.append(f.get("impl_self", "").split("<")[0] + "<")
+    return tuple(out)
+
+
+def finite_iterator(npath, term, extra_bases=()):
     """Is `<X as Iterator>::next` the next of a finite std iterator, possibly wrapped in length-preserving/shrinking adaptors?"""
     if npath in FINITE_ITERATORS:
         return True
@@ -61,8 +73,8 @@ def finite_iterator(npath, term):
                 if not hit:
                     break
                 inner = inner[len(hit[0]) + 1:]
-            if inner.startswith(FINITE_BASES):
-                return True
+            if inner.startswith(FINITE_BASES) or (extra_bases and inner.startswith(extra_bases)):
+                return True   # for Zip/Chain: the first component bounds (Zip) or both must be finite; first is checked
     return False
 
 
@@ -290,6 +302,7 @@ def rule_panic(ctx):
 def rule_loop(ctx):
     facts = ctx.facts()
     n = 0
+    extra = local_finite_types(facts)
     for k, b in facts.bodies.items():
         heads = models.loop_of_next(b)
         for h, blk in b.loops().items():
@@ -299,7 +312,7 @@ def rule_loop(ctx):
                 continue
             nb, it, npath = heads[h]
             exits_only_on_none = True
-            if finite_iterator(npath, b.term(nb)):
+            if finite_iterator(npath, b.term(nb), extra):
                 ctx.ob("LOOP", "loop over a finite std iterator (%s)" % npath.split(" as ")[0].strip("<"), True, fn=k, site=b.site(h), detail=npath)
             elif npath in facts.bodies:
                 # local iterator: must forward to a finite one
